@@ -100,6 +100,8 @@ class World:
             base_cls = aioftp.PathIO if self.backend == "pathio" else aioftp.AsyncPathIO
         self.base_path = base_path
         self.users = [u.make(base_path) for u in self.user_specs]
+        # somebody else's classes: a backend class / a Server subclass of one's own (harness/thirdparty.py)
+        base_cls = getattr(self, "backend_cls", None) or base_cls
         factory = spyio.make_spy_factory(base_cls, self.spy)
         self.vexec = None
         if self.backend == "vasync":
@@ -108,7 +110,8 @@ class World:
 
             self.vexec = simnet.VirtualExecutor(self.loop)
             factory = functools.partial(factory, executor=self.vexec)
-        self.server = aioftp.Server(self.users if self.manager_factory is None else self.manager_factory(self.users), path_io_factory=factory, **self.kw)
+        server_cls = getattr(self, "server_cls", None) or aioftp.Server
+        self.server = server_cls(self.users if self.manager_factory is None else self.manager_factory(self.users), path_io_factory=factory, **self.kw)
         await self.server.start(self.net.host, self.port)
         return self
 
